@@ -603,7 +603,11 @@ def to_script(dataframe_schema, path_or_buf=None):
         columns=column_str,
         checks=statistics["checks"],
         index=index,
-        dtype=dataframe_schema.dtype,
+        dtype=(
+            None
+            if dataframe_schema.dtype is None
+            else _get_dtype_string_alias(dataframe_schema.dtype)
+        ),
         coerce=dataframe_schema.coerce,
         strict=dataframe_schema.strict.__repr__(),
         name=dataframe_schema.name.__repr__(),
